@@ -398,7 +398,16 @@ fn gen_kv_ops(r: &mut Rng, odd_keys: bool) -> Vec<Value> {
                     4 => 40000 + r.below(60000), // larger than any codec's internal buffer
                     _ => r.below(300),
                 };
-                let data: Vec<u8> = (0..len).map(|_| (r.next() & 0xff) as u8).collect();
+                // random bytes (incompressible), or - one time in four - highly compressible content: a run, a short
+                // period, a repeated JSON fragment (a codec may treat the two very differently)
+                let data: Vec<u8> = match r.below(8) {
+                    0 => vec![b'a'; len],
+                    1 => {
+                        let frag = b"{\"_id\":\"x0\",\"v\":1},";
+                        (0..len).map(|i| frag[i % frag.len()]).collect()
+                    }
+                    _ => (0..len).map(|_| (r.next() & 0xff) as u8).collect(),
+                };
                 if !sizes.contains_key(&k) {
                     sizes.insert(k.clone(), len);
                     keys.push(k.clone());
